@@ -1,6 +1,8 @@
 import WitnessVerif.Model.Bastion
 import WitnessVerif.Model.ProofFmt
 import WitnessVerif.Proofs.Base64
+import WitnessVerif.Proofs.ParseBody
+import WitnessVerif.Proofs.ProofFmt
 /-
 C11 — request and proof text formats parse back to exactly what was written.
 -/
@@ -59,5 +61,31 @@ theorem C11_unmarshal_needs_newline (d : Bytes) (hne : d ≠ []) (h : B.hasSuffi
   unfold ProofFmt.unmarshal
   have : d.isEmpty = false := by cases d <;> simp_all
   simp [this, h]
+
+end C11
+
+namespace C11
+
+/-- every old size in 0..2^64-1 written with `%d` parses back -/
+theorem C11_decimal_roundtrip (n : Nat) (h : n < 2 ^ 64) : Dec.parseUint64 (Dec.print n) = some n :=
+  Dec.parse_print n h
+
+/-- An add-checkpoint body written as an old-size line, base64 proof lines, a blank line and a
+    checkpoint parses to exactly that old size, those hashes in order, and those checkpoint bytes — for
+    every old size below 2^64, every list of non-empty hashes (each up to 3000 bytes, so that its line
+    fits `bufio`'s 4096-byte buffer; the property asks for 1..64 bytes) and arbitrary checkpoint bytes. -/
+theorem C11_parseBody_writeBody (old : Nat) (proof : List Bytes) (cp : Bytes) (hold : old < 2 ^ 64)
+    (hproof : ∀ h ∈ proof, h ≠ [] ∧ h.length ≤ 3000) :
+    Bastion.parseBody (Bastion.writeBody old proof cp) = some (old, proof, cp) :=
+  Bastion.parseBody_writeBody old proof cp hold hproof
+
+/-- a proof in the common text format reads back, for every list of hashes including the empty list
+    (and lists containing empty hashes), as the list that was written -/
+theorem C11_proof_roundtrip (p : List Bytes) : ProofFmt.unmarshal (ProofFmt.marshal p) = some p :=
+  ProofFmt.unmarshal_marshal p
+
+/-- non-vacuity: a concrete body -/
+example : Bastion.parseBody (Bastion.writeBody 5 [[1, 2, 3], [255]] [65, 10, 10, 66]) = some (5, [[1, 2, 3], [255]], [65, 10, 10, 66]) :=
+  C11_parseBody_writeBody 5 _ _ (by decide) (by decide)
 
 end C11
